@@ -36,7 +36,7 @@ RULE = ("messages over the JSON-native domain (boundary integers/floats, control
         "nesting >=3; distinct by hash of the message. json_default 'e' handles the application's types only and refuses everything else without "
         "delegating: what the encoder writes by itself (dates, times, datetimes, tuples) must not depend on it. part 'shutdown': fresh "
         "interpreters whose leftover objects log Path/set/complex/date/... values from __del__ while the interpreter is torn down, into "
-        "FileDestinations on binary, unbuffered and stdout files: one faithful line per message offered")
+        "FileDestinations on stdout (text, binary, to_file): one faithful line per message offered")
 ASSUMPTIONS = ["value domain bounded by orjson's own limits (64-bit integers, nesting < 254, valid Unicode)"]
 BATCH = 500
 
@@ -156,9 +156,11 @@ def plan(tier, seed):
     specs += [{"part": "realtext", "seed": seed, "lo": i, "hi": min(nr, i + 100), "tier": tier} for i in range(0, nr, 100)]
     nf = 2000 if tier == "quick" else 20000
     specs += [{"part": "faultyfile", "seed": seed, "lo": i, "hi": min(nf, i + 100), "tier": tier} for i in range(0, nf, 100)]
-    combos = [(d, hw, v) for d in shutdown.DESTS for hw in shutdown.HOWS for v in sorted(shutdown.EXPECTED_JSON)]
+    combos = [(d, hw, v) for d in shutdown.DESTS if d != "function" for hw in shutdown.HOWS for v in sorted(shutdown.EXPECTED_JSON)]
     random.Random("%s:C10:shutdown" % seed).shuffle(combos)
-    specs += [{"part": "shutdown", "seed": seed, "dest": d, "how": hw, "value": v} for d, hw, v in (combos[:12] if tier == "quick" else combos)]
+    if tier == "quick":
+        combos = [c_ for d in shutdown.DESTS for c_ in [x for x in combos if x[0] == d][:3]]  # three per kind of destination
+    specs += [{"part": "shutdown", "seed": seed, "dest": d, "how": hw, "value": v} for d, hw, v in combos]
     return specs
 
 
